@@ -276,8 +276,12 @@ def precise_diff(
                 d_diff += d1.day
             else:
                 d_diff += days_in_last_month
-        elif d_diff == days_in_month - days_in_last_month:
-            # We have exactly a full month
+        elif (
+            d_diff == days_in_month - days_in_last_month
+            and d1.day == days_in_last_month
+        ):
+            # We have exactly a full month: the last day of a month
+            # up to the last day of a shorter one, same time or later.
             # We remove the days difference
             # and add one to the months difference
             d_diff = 0
